@@ -111,6 +111,8 @@ def gen_case(rng, maxlen=6, fn=None):
         "scorer": scorer, "r": rch, "alpha": alpha,
         "default_scorer": default_scorer, "container": rng.choice(["str", "tuple", "list"]),
         "omit": sorted(k for k in ("gop", "scale", "mode") if rng.random() < 0.25) if fn == 7 else [],
+        # pw_align only: this letter is handed over as a BLANK (a legal symbol of a string, a tuple or a list)
+        "blank": rng.choice(alpha) if fn == 7 and rng.random() < 0.35 else None,
     }
     # a keyword that is left out takes the documented default of pw_align; the case records the effective value
     for k, v in (("gop", F(-1)), ("scale", F(1, 2)), ("mode", "global")):
@@ -223,12 +225,17 @@ def run_impl(case):
         # lingpy.align.pairwise.pw_align: strings, tuples or lists; own scorer when none is passed; keyword defaults
         from lingpy.align.pairwise import pw_align
         conv = {"str": "".join, "tuple": tuple, "list": list}[case.get("container", "list")]
+        bl = case.get("blank")
+        to_b = lambda x: " " if x == bl else x
+        from_b = lambda x: bl if x == " " else x
+        unb = lambda part: [from_b(x) for x in part]
+        sa, sb = [to_b(x) for x in sa], [to_b(x) for x in sb]
         kw = {"gop": float(case["gop"]), "scale": scale, "mode": mode}
         if not case.get("default_scorer"):
-            kw["scorer"] = scorer
+            kw["scorer"] = {(to_b(a), to_b(b)): v for (a, b), v in scorer.items()}
         for k in case.get("omit", ()):
             kw.pop(k)
-        denom = sum(case["scorer"][x, x] for x in sa + sb)
+        denom = sum(case["scorer"][x, x] for x in case["seqA"] + case["seqB"])
         out = pw_align(conv(sa), conv(sb), **kw)
         if denom:
             outd = pw_align(conv(sa), conv(sb), distance=True, **kw)
@@ -237,6 +244,11 @@ def run_impl(case):
             res["dist"] = F(outd[2])
         else:
             res["dist"] = None
+        if bl:
+            if local:
+                out = (tuple(unb(p) for p in out[0]), tuple(unb(p) for p in out[1]), out[2])
+            else:
+                out = (unb(out[0]), unb(out[1]), out[2])
     elif case["fn"] == 8:
         denom = sum(case["scorer"][x, x] for x in sa + sb)
         for o in case["batch"]:
